@@ -32,7 +32,7 @@ def jobs(tier, seed):
     out = []
     def J(name, shape=None, lay=None, **kw):
         sh = dict(P=2, C=1, sub=2, F=2); sh.update(shape or {})
-        out.append({'entry': 'h_load', 'harness': 'h_load.cpp', 'name': name, 'cfg': {'gens': 0, 'dump': 1}, 'shape': sh, 'lay': lay or {}, 'opts': kw})
+        out.append({'entry': 'h_load', 'harness': 'h_load.cpp', 'name': name, 'cfg': {'gens': 0, 'dump': 1, 'obsfiles': 0}, 'shape': sh, 'lay': lay or {}, 'opts': kw})
     ex = EXTRAS_Q if tier == 'quick' else EXTRAS_T
     J('plain', extras=ex)
     for z in (1, 511, 512): J('zeros%d' % z, lay={'zeros': z}, extras=ex[:2])
